@@ -3,6 +3,7 @@ package harness
 import (
 	"encoding/json"
 	"fmt"
+	banktypes "github.com/cosmos/cosmos-sdk/x/bank/types"
 	"math/big"
 	"sort"
 	"testing"
@@ -209,6 +210,29 @@ func driveRVesting(t *testing.T, in, out string, seed int64) {
 				line["res"], line["msg"] = res, msg
 				line["moved"] = zero
 				line["args"] = step["params"]
+			case "BankSwitch":
+				// the bank module's transfer switches, changed by a parameter-change proposal (they concern transfers between
+				// accounts; nothing a module moves between module accounts)
+				d, on := str(step["denom"]), step["on"] == true
+				bp := c.App.BankKeeper.GetParams(c.Ctx())
+				var change paramproposal.ParamChange
+				if d == "default" {
+					change = paramproposal.NewParamChange(banktypes.ModuleName, string(banktypes.KeyDefaultSendEnabled), fmt.Sprint(on))
+				} else {
+					list := []*banktypes.SendEnabled{}
+					for _, se := range bp.SendEnabled {
+						if se.Denom != d {
+							list = append(list, se)
+						}
+					}
+					list = append(list, &banktypes.SendEnabled{Denom: d, Enabled: on})
+					bz, err := json.Marshal(list)
+					must(err)
+					change = paramproposal.NewParamChange(banktypes.ModuleName, string(banktypes.KeySendEnabled), string(bz))
+				}
+				res, msg := c.ExecProposal(paramproposal.NewParameterChangeProposal("t", "d", []paramproposal.ParamChange{change}))
+				line["res"], line["msg"] = res, msg
+				line["moved"] = zero
 			default:
 				t.Fatalf("unknown action %q", act)
 			}
